@@ -9,13 +9,14 @@ COQ_PRELUDE = ''
 PER_FILE = 60
 CASE_TIMEOUT = 20
 RULE = ('a case = a publication history (1-8 partial float series over 6 or 12-20 observation dates, stamps drawn from 5 days, '
-        'values repeating / reverting / NaN, several versions sharing a stamp, dates that first appear late), merged in order with '
-        'bi_merge(store, Bi(series, stamp)) - the five stamps are consecutive days in 2021, or lie in 2100-2105 (after the machine clock), or a mix of both - then read with bi_read at every time before / between / on / after the stamps and with '
+        'values repeating / reverting / NaN / +-inf, int or float dtype, several versions sharing a stamp, dates that first appear late, a version without rows, named index / named Series, '
+        'frames of several hundred rows; stamps at midnight or with a time of day down to the microsecond, spelled as datetime / date / Timestamp / datetime64 / ISO string), merged in order - one version per call or several versions in one call - with '
+        'bi_merge(store, Bi(series, stamp)) - the five stamps are consecutive days in 2021, or lie in 2100-2105 (after the machine clock), or a mix of both - then read with bi_read at every time before / between (12 h or one microsecond off a stamp) / on / after the stamps (asof spelled as datetime / date / Timestamp / datetime64) and with '
         'asof=None, what in {-1, 0}; optionally one version is merged once more and all reads are repeated. Half of the histories grow the '
         'frame beyond 16 rows (where pandas switches sort algorithm). Compared in Coq with M_bitemp: every read (dates in order, values, NaN) '
         'and the complete store (date, stamp, value rows in frame order). The oracle recomputes each read from the property text by a plain '
         'loop over the history (latest stamp <= T, later merge wins a tie, NaN never overrides; what=0: value at the first stamp) and checks '
-        'that re-merging a version already in the store changes no read. A separate stream merges out of stamp order (no claim; correspondence only). '
+        'that re-merging a version already in the store changes no read; Bi itself is checked on every version (same rows and values, every row stamped exactly, bitemporal input and asof=None returned unchanged). A separate stream merges out of stamp order (no claim; correspondence only). '
         'non-trivial = at least two versions publish the same date; distinct by the whole case')
 EXPLANATION = ('theorems C17_* (coq/props/C17.v) hold for every publication history and every T by induction over the history (invariant: per date '
                'strictly increasing stamps, NaN only before the first value, column reads like the publication list); the correspondence ties the '
@@ -23,7 +24,7 @@ EXPLANATION = ('theorems C17_* (coq/props/C17.v) hold for every publication hist
 TRUSTED = ['modelled, not verified: pandas concat / sort_values(kind=stable) / groupby iteration order / ffill / drop_duplicates(keep=last) / boolean row filter, '
            'as transcribed in coq/model/M_bitemp.v and compared on every generated case',
            'float values are carried, never computed: generated values are small integers, NaN is the only special value']
-ASSUMPTIONS = ['each version is a single-valued float Series with a unique DatetimeIndex', 'versions are merged in non-decreasing stamp order (hypothesis of the property)',
+ASSUMPTIONS = ['each version is a single-valued numeric Series (named or not) with a unique DatetimeIndex; asof is a datetime-like object (str / int asof is outside bi_read\'s documented domain and is silently not applied)', 'versions are merged in non-decreasing stamp order (hypothesis of the property)',
                'what is an int (-1 or 0 in the theorems; other ints are compared with the model only)']
 EXHAUSTIVE = {'quick': False, 'thorough': False}
 LEVEL_TEXT = ('machine-checked Coq theorems for every publication history and read time (induction over the history): as-of read = latest published value per date, '
@@ -37,26 +38,52 @@ S0 = datetime.datetime(2021, 1, 1)
 H12 = datetime.timedelta(hours=12)
 DAY = datetime.timedelta(days=1)
 
-# 'cal' (optional): day offsets from 2021-01-01 of the five stamps, increasing; default consecutive days in 2021.  The property
-# does not tie stamps to the wall clock: calendars with stamps in 2100-2105 (after the machine's "now") are generated too.
+# Optional case fields (the property does not tie stamps to the wall clock, to midnight, or to one spelling of a datetime):
+#  cal   day offsets from 2021-01-01 of the five stamps, increasing (default consecutive days in 2021; 2100-2105 = after "now")
+#  tod   microsecond-of-day of each stamp, non-decreasing (default 0 = midnight)
+#  eps   how an odd read time 2s+1 ("between stamp s and s+1") is realised: '12h' after stamp s | '+us' 1 microsecond after stamp s
+#        | '-us' 1 microsecond before stamp s+1
+#  stamp_form / asof_form   spelling handed to Bi / bi_read: dt datetime | ts pd.Timestamp | dt64 np.datetime64 | str ISO string (Bi only)
+#        | date datetime.date (used when the time is midnight, otherwise datetime)
+#  index_name, series_name  names of the version's index / Series;  int_dtype  NaN-free versions are built with an int dtype
+#  groups  consecutive versions merged by ONE call bi_merge(store, [b1, b2, ...])
 DEFAULT_CAL = [0, 1, 2, 3, 4]
-def stamp_dt(s, cal=DEFAULT_CAL): return S0 + DAY * cal[s]
-def asof_dt(t2, cal=DEFAULT_CAL):
-    """read time in half-steps: 2s = on stamp s, 2s+1 = 12h after stamp s (before stamp s+1), negative = before every stamp"""
+US = datetime.timedelta(microseconds=1)
+INF = 10 ** 9          # the model's stand-in for float('inf') (values are carried, never computed)
+
+def stamp_dt(case, s):
+    return S0 + DAY * case.get('cal', DEFAULT_CAL)[s] + US * case.get('tod', [0] * 5)[s]
+def asof_dt(case, t2):
+    """read time in half-steps: 2s = on stamp s, 2s+1 = strictly between stamp s and s+1, negative = before every stamp, > 9 = after all"""
     if t2 is None: return None
-    if t2 < 0: return S0 + DAY * cal[0] + H12 * t2
-    if t2 > 9: return S0 + DAY * cal[4] + H12 * (t2 - 8)
-    return S0 + DAY * cal[t2 // 2] + H12 * (t2 % 2)
+    eps = case.get('eps', '12h')
+    if t2 < 0: return stamp_dt(case, 0) + (H12 * t2 if eps == '12h' else -US)
+    if t2 > 9: return stamp_dt(case, 4) + H12 * (t2 - 8)
+    s, r = divmod(t2, 2)
+    if r == 0: return stamp_dt(case, s)
+    if eps == '12h': return stamp_dt(case, s) + H12
+    if eps == '+us' or s == 4: return stamp_dt(case, s) + US
+    return stamp_dt(case, s + 1) - US
+def spell(t, form):
+    if t is None or form == 'dt': return t
+    if form == 'ts': return pd.Timestamp(t)
+    if form == 'dt64': return np.datetime64(t)
+    if form == 'str': return t.isoformat(sep=' ')
+    if form == 'date': return t.date() if t == datetime.datetime(t.year, t.month, t.day) else t
+    raise ValueError(form)
 
 # ---------------- Coq side
 def coq_runner(case):
-    return 'run_bitemp'
+    return 'run_bitemp_g'
 
-def _cv(v): return 'None' if v is None else '(Some (%d))' % v
+def _mv(v): return None if v is None else INF if v == 'inf' else -INF if v == '-inf' else v
+def _cv(v): return 'None' if v is None else '(Some (%d))' % _mv(v)
 def _cversion(s, rows):
     return '((%d), [%s])' % (2 * s, '; '.join('((%d), %s)' % (d, _cv(v)) for d, v in rows))
+def groups_of(case):
+    return case.get('groups') or [[i] for i in range(len(case['hist']))]
 def coq_case(case):
-    h = '[' + '; '.join(_cversion(s, rows) for s, rows in case['hist']) + ']'
+    h = '[' + '; '.join('[' + '; '.join(_cversion(*case['hist'][i]) for i in g) + ']' for g in groups_of(case)) + ']'
     reads = '[' + '; '.join('(%s, (%d))' % ('None' if t is None else '(Some (%d))' % t, w) for t, w in case['reads']) + ']'
     k = case.get('again')
     again = 'None' if k is None else '(Some %s)' % _cversion(*case['hist'][k])
@@ -71,11 +98,36 @@ def impl_setup():
 def _val(x):
     x = float(x)
     if x != x: return 'NaN'
+    if x == float('inf'): return INF
+    if x == float('-inf'): return -INF
     assert x == int(x)
     return int(x)
 
-def _series(rows):
-    return pd.Series([float('nan') if v is None else float(v) for _, v in rows], index=[D0 + DAY * d for d, _ in rows], dtype=float)
+def _pv(v): return float('nan') if v is None else float(v)
+
+def _series(case, rows):
+    idx = pd.DatetimeIndex([D0 + DAY * d for d, _ in rows], name=case.get('index_name'))
+    plain = all(isinstance(v, int) for _, v in rows)
+    if case.get('int_dtype') and plain and rows:
+        return pd.Series([v for _, v in rows], index=idx, dtype=int, name=case.get('series_name'))
+    return pd.Series([_pv(v) for _, v in rows], index=idx, dtype=float, name=case.get('series_name'))
+
+class StampViolation(Exception):
+    pass
+
+def _bi(case, s, rows):
+    """Bi(series, stamp) plus the direct check of the stamp assignment: same rows, same values, every row stamped exactly with the stamp"""
+    ser = _series(case, rows); t = stamp_dt(case, s)
+    b = Bi(ser, spell(t, case.get('stamp_form', 'dt')))
+    ok = (len(b) == len(ser) and list(b.index) == list(ser.index) and 'updated' in b.columns and len(b.columns) == 2
+          and all(pd.Timestamp(u) == pd.Timestamp(t) for u in b['updated'])
+          and all((x == y) or (x != x and y != y) for x, y in zip(b.drop(columns='updated').iloc[:, 0].values, ser.values)))
+    if not ok:
+        raise StampViolation('Bi(series of %d rows%s, %r) is not the series stamped at %s: %d rows, stamps %s' % (
+            len(ser), ' named %r' % ser.name if ser.name else '', spell(t, case.get('stamp_form', 'dt')), t, len(b), sorted(set(map(str, b.get('updated', []))))[:3]))
+    if Bi(b, t + DAY) is not b or Bi(ser, None) is not ser:
+        raise StampViolation('Bi must return an already bitemporal frame / a frame with asof=None unchanged')
+    return b
 
 def _obs_read(r):
     if r is None or len(r) == 0:
@@ -83,18 +135,14 @@ def _obs_read(r):
     assert isinstance(r, pd.Series), type(r)
     return [[(t - D0).days, _val(x)] for t, x in zip(r.index, r.values)]
 
-def _obs_store(st, cal=DEFAULT_CAL):
+def _obs_store(case, st):
     if st is None:
         return []
     cols = [c for c in st.columns if c != 'updated']
     assert len(cols) == 1, cols
-    out = []
-    for t, u, x in zip(st.index, st['updated'], st[cols[0]].values):
-        du = u - S0
-        # stamp back to its index (x2, the model's time axis); a stamp that is none of the published ones is shown as -7
-        idx = 2 * cal.index(du.days) if (du.seconds == 0 and du.microseconds == 0 and du.days in cal) else -7
-        out.append([(t - D0).days, idx, _val(x)])
-    return out
+    back = {stamp_dt(case, s): 2 * s for s in range(5)}
+    # a stamp that is none of the published ones is shown as -7
+    return [[(t - D0).days, back.get(u.to_pydatetime(), -7), _val(x)] for t, u, x in zip(st.index, st['updated'], st[cols[0]].values)]
 
 def expected(hist, t2, what):
     """the property text, by a plain loop over the history: {date: value} (value None = NaN)"""
@@ -112,29 +160,33 @@ def expected(hist, t2, what):
             first = [c for c in cands if c[0] == s0]              # merged at the first stamp, in merge order
             good = [c for c in first if c[2] is not None]
             res[d] = good[-1][2] if good else None
-    return res
+    return {d: _mv(v) for d, v in res.items()}
 
 def _as_dict(obs):
     return {d: (None if v == 'NaN' else v) for d, v in obs}
 
 def impl(case):
-    hist = case['hist']; cal = case.get('cal', DEFAULT_CAL)
+    hist = case['hist']
     ordered = all(hist[i][0] <= hist[i + 1][0] for i in range(len(hist) - 1))
+    af = case.get('asof_form', 'dt')
+    def read_all(st):
+        return [_obs_read(bi_read(st, spell(asof_dt(case, t), af), w)) for t, w in case['reads']]
     try:
         store = None
-        for s, rows in hist:
-            store = bi_merge(store, Bi(_series(rows), stamp_dt(s, cal)))
-        reads = [_obs_read(bi_read(store, asof_dt(t, cal), w)) for t, w in case['reads']]
-        st_obs = _obs_store(store, cal)
+        for g in groups_of(case):
+            bis = [_bi(case, *hist[i]) for i in g]
+            store = bi_merge(store, bis[0] if len(bis) == 1 else bis)
+        reads = read_all(store)
+        st_obs = _obs_store(case, store)
         k = case.get('again')
         reads2 = []
         if k is not None:
-            s, rows = hist[k]
-            store2 = bi_merge(store, Bi(_series(rows), stamp_dt(s, cal)))
-            reads2 = [_obs_read(bi_read(store2, asof_dt(t, cal), w)) for t, w in case['reads']]
+            reads2 = read_all(bi_merge(store, _bi(case, *hist[k])))
+    except StampViolation as e:
+        return {'status': 'ok', 'obs': ['ERR', 'Bi'], 'viol': str(e)}
     except Exception as e:
         n = type(e).__name__
-        return {'status': n, 'obs': ['ERR', n], 'viol': 'bi_merge / bi_read raised %s: %s' % (n, str(e)[:200])}
+        return {'status': n, 'obs': ['ERR', n], 'viol': 'Bi / bi_merge / bi_read raised %s: %s' % (n, str(e)[:200])}
     viol = None
     if ordered:
         for (t, w), got in zip(case['reads'], reads):
@@ -145,10 +197,11 @@ def impl(case):
             if len(g) != len(got):
                 viol = 'bi_read(asof=%s, what=%d) returned a date twice: %s' % (t, w, got); break
             if g != exp:
-                viol = 'bi_read(asof=%s half-days, what=%d) = %s but the history publishes %s' % (t, w, sorted(g.items()), sorted(exp.items())); break
+                viol = 'bi_read(asof=%s [%s, half-steps], what=%d) = %s but the history publishes %s' % (
+                    t, spell(asof_dt(case, t), af), w, sorted(g.items()), sorted(exp.items())); break
         if viol is None and k is not None:
             s, rows = hist[k]
-            in_store = all([d, 2 * s, 'NaN' if v is None else v] in st_obs for d, v in rows)
+            in_store = all([d, 2 * s, 'NaN' if v is None else _mv(v)] in st_obs for d, v in rows)
             if (k == len(hist) - 1 or in_store) and reads2 != reads:
                 j = [i for i in range(len(reads)) if reads[i] != reads2[i] and case['reads'][i][1] in (-1, 0)]
                 if j:
@@ -170,7 +223,12 @@ def shape(case):
     era = 'past' if cal[-1] < FUTURE else 'future' if cal[0] >= FUTURE else 'past+future'
     h = case['hist']
     ordered = all(h[i][0] <= h[i + 1][0] for i in range(len(h) - 1))
-    return '%s:%s:v%d:%s%s' % (era, 'ordered' if ordered else 'unordered', len(h), 'rows>16' if n > 16 else 'rows<=16', ':again' if case.get('again') is not None else '')
+    extras = ''.join(':' + k for k in ('tod', 'groups', 'index_name', 'series_name', 'int_dtype') if case.get(k)) + \
+             ''.join(':%s=%s' % (k, case[k]) for k in ('eps', 'stamp_form', 'asof_form') if case.get(k))
+    vals = {v for _, rows in h for _, v in rows}
+    return '%s:%s:v%d:%s%s%s%s%s' % (era, 'ordered' if ordered else 'unordered', len(h), 'rows>100' if n > 100 else 'rows>16' if n > 16 else 'rows<=16',
+                                   ':again' if case.get('again') is not None else '', ':inf' if ('inf' in vals or '-inf' in vals) else '',
+                                   ':emptyversion' if any(not rows for _, rows in h) else '', extras)
 
 # ---------------- generation
 FUTURE = 28854          # 2100-01-01 in days from 2021-01-01
@@ -202,7 +260,7 @@ def gen_history(rng, ndates, nver, p_row, ordered=True, sort_index=True):
 
 def gen_cases(rng, tier):
     cases = []
-    n = 400 if tier == 'quick' else 5000
+    n = 330 if tier == 'quick' else 5000
     for i in range(n):
         r = rng.random()
         if r < 0.45:      # the design's scope: 6 dates, 1-6 versions
@@ -223,21 +281,65 @@ def gen_cases(rng, tier):
         elif r2 < 0.4:     # past and future stamps mixed
             k = rng.randrange(1, 5)
             case['cal'] = sorted(rng.sample(range(0, 400), k)) + sorted(rng.sample(range(FUTURE, FUTURE + 2000), 5 - k))
+        decorate(rng, case)
+        cases.append(case)
+    for _ in range(6 if tier == 'quick' else 40):     # frames of several hundred rows
+        hist = gen_history(rng, rng.randrange(50, 80), rng.randrange(3, 6), 0.9)
+        case = {'hist': hist, 'reads': [[t, w] for t in (None, 1, 4, 5, 8) for w in (-1, 0)], 'again': rng.choice([None, len(hist) - 1])}
+        decorate(rng, case)
         cases.append(case)
     return cases
+
+def decorate(rng, case):
+    """kinds of input the statement's quantifier includes but plain histories never show"""
+    hist = case['hist']
+    ordered = all(hist[i][0] <= hist[i + 1][0] for i in range(len(hist) - 1))
+    sorted_idx = all(rows == sorted(rows) for _, rows in hist)
+    if rng.random() < 0.3:        # stamps with a time of day down to the microsecond; reads one microsecond off a stamp
+        case['tod'] = sorted(rng.choice([0, 1, 999999, 49507123456, 86399999999, rng.randrange(86400000000)]) for _ in range(5))
+        case['eps'] = rng.choice(['+us', '-us'])
+    elif rng.random() < 0.3:
+        case['eps'] = rng.choice(['+us', '-us'])
+    if rng.random() < 0.4:
+        case['stamp_form'] = rng.choice(['ts', 'dt64', 'str', 'date'])
+    if rng.random() < 0.4:
+        case['asof_form'] = rng.choice(['ts', 'dt64', 'date'])
+    if rng.random() < 0.25:
+        case['index_name'] = rng.choice(['date', 'index', 'updated_on'])
+    if rng.random() < 0.15:
+        case['series_name'] = rng.choice(['px', 'value', 0])
+    if rng.random() < 0.2:
+        case['int_dtype'] = True
+    if rng.random() < 0.15:       # infinite values are values like any other
+        for _, rows in hist:
+            for r in rows:
+                if rng.random() < 0.2:
+                    r[1] = rng.choice(['inf', '-inf'])
+    if len(hist) >= 2 and rng.random() < 0.25:      # several versions handed to one bi_merge call
+        groups = []; i = 0
+        while i < len(hist):
+            k = rng.choice([1, 1, 2, 3]); groups.append(list(range(i, min(len(hist), i + k)))); i += k
+        case['groups'] = groups
+    if sorted_idx and len(hist) >= 2 and rng.random() < 0.08:     # a version without any row
+        hist[rng.randrange(len(hist))][1] = []
 
 def shrink(case):
     h = case['hist']
     if case.get('again') is not None:
         yield dict(case, again=None)
+    if case.get('groups'):
+        yield {k: v for k, v in case.items() if k != 'groups'}
+    for k in ('tod', 'eps', 'stamp_form', 'asof_form', 'index_name', 'series_name', 'int_dtype', 'cal'):
+        if case.get(k) is not None:
+            yield {kk: v for kk, v in case.items() if kk != k}
     for i in range(len(h)):
-        if len(h) > 1 and case.get('again') is None:
+        if len(h) > 1 and case.get('again') is None and not case.get('groups'):
             yield dict(case, hist=h[:i] + h[i + 1:])
     # drop one date everywhere
     dates = sorted({d for _, rows in h for d, _ in rows})
     for d in dates:
         h2 = [[s, [r for r in rows if r[0] != d]] for s, rows in h]
-        if all(rows for _, rows in h2):
+        if all(rows for _, rows in h2) and h2 != h:
             yield dict(case, hist=h2)
     if len(case['reads']) > 1:
         for i in range(len(case['reads'])):
